@@ -209,6 +209,15 @@ class C04(Check):
                     text += ' ' + json.dumps(op.get('payload'))
                 rec = {'op': op, 'task': task, 'send_seq': sim.next_seq(), 'ncalls': len(drv.calls)}
                 before = node.cache() if strict else None
+                if strict and op['kind'] == 'change':
+                    # the value a partial struct is merged into (also while the parameter is in an error state)
+                    try:
+                        mobj_ = node.srv.secnode.modules[op['m']]
+                        pn_ = mobj_.accessiblename2attr.get(op['name'])
+                        if pn_ in mobj_.parameters and (op['m'], pn_) in drv.di and drv.di[op['m'], pn_]['type'] == 'struct':
+                            rec['value_before'] = dtgen.to_wire(drv.di[op['m'], pn_], mobj_.parameters[pn_].value)
+                    except Exception:   # noqa
+                        pass
                 nlines = len(cl.lines)
                 rep = cl.request(text, timeout=60)
                 rec['reply_seq'] = sim.next_seq()
@@ -336,7 +345,7 @@ class C04(Check):
                     if not is_err or errcls != 'ReadOnly':
                         res.append(Violation('C04.wrong-refusal', 'readonly', f'{what}: answered {rep!r}'))
                     continue
-                current = mine[0].get('current') if mine else None
+                current = mine[0].get('current') if mine else rec.get('value_before')
                 if op.get('nodata'):
                     verdict, info = dtgen.REJECT, {'WrongType', 'ProtocolError', 'BadValue'}
                 else:
